@@ -172,7 +172,7 @@ func (ps *pathState) decide2(alts []*Term, kind string, free bool) int {
 	live := 0
 	last := -1
 	for i, a := range alts {
-		res[i] = ps.resolve(a)
+		res[i] = ps.normalize(ps.resolve(a))
 		if res[i].isTrue() {
 			return i
 		}
@@ -275,7 +275,7 @@ func (ps *pathState) assume(cond value, what string) {
 		}
 		return
 	case symBool:
-		t = ps.resolve(c.t)
+		t = ps.normalize(ps.resolve(c.t))
 	}
 	if t.isTrue() {
 		return
@@ -314,7 +314,7 @@ func (ps *pathState) check(label string, cond value, harness string) {
 	case bool:
 		t = mkBool(c)
 	case symBool:
-		t = ps.resolve(c.t)
+		t = ps.normalize(ps.resolve(c.t))
 	}
 	if t.isTrue() {
 		return
@@ -494,4 +494,101 @@ func sortedKeys(m map[string]bool) []string {
 	}
 	sort.Strings(ks)
 	return ks
+}
+
+// normalize rewrites string equalities between concatenations whose parts
+// are separated by a constant character that none of the symbolic parts can
+// contain (alphabet facts of the inputs) into segment-wise equalities. The
+// rewrite is an equivalence under the path's alphabet assumptions and spares
+// the solver word equations.
+func (ps *pathState) normalize(t *Term) *Term {
+	if len(ps.alpha) == 0 || t.isConst() || t.Op == "var" {
+		return t
+	}
+	if t.Op == "=" && t.Args[0].Sort.K == 's' {
+		if r := ps.splitEq(t.Args[0], t.Args[1]); r != nil {
+			return r
+		}
+		return t
+	}
+	switch t.Op {
+	case "not", "and", "or", "ite":
+		changed := false
+		args := make([]*Term, len(t.Args))
+		for i, a := range t.Args {
+			args[i] = ps.normalize(a)
+			if args[i] != a {
+				changed = true
+			}
+		}
+		if changed {
+			return rebuild(t, args)
+		}
+	}
+	return t
+}
+
+func (ps *pathState) splitEq(a, b *Term) *Term {
+	pa, pb := strParts(a), strParts(b)
+	// candidate separators: characters of the constant parts
+	seen := map[byte]bool{}
+	var cands []byte
+	for _, ps2 := range [][]*Term{pa, pb} {
+		for _, p := range ps2 {
+			if p.isConst() {
+				for k := 0; k < len(p.S); k++ {
+					if !seen[p.S[k]] {
+						seen[p.S[k]] = true
+						cands = append(cands, p.S[k])
+					}
+				}
+			}
+		}
+	}
+	for _, c := range cands {
+		sa, ok1 := ps.segments(pa, c)
+		sb, ok2 := ps.segments(pb, c)
+		if !ok1 || !ok2 || (len(sa) == 1 && len(sb) == 1) {
+			continue
+		}
+		if len(sa) != len(sb) {
+			return tFalse
+		}
+		var cs []*Term
+		for k := range sa {
+			cs = append(cs, mkEq(sa[k], sb[k]))
+		}
+		return mkAnd(cs...)
+	}
+	return nil
+}
+
+// segments splits a concatenation at every occurrence of c, provided no
+// symbolic part can contain c.
+func (ps *pathState) segments(parts []*Term, c byte) ([]*Term, bool) {
+	var out []*Term
+	var cur []*Term
+	for _, p := range parts {
+		if !p.isConst() {
+			if !ps.partExcludes(p, c) {
+				return nil, false
+			}
+			cur = append(cur, p)
+			continue
+		}
+		rest := p.S
+		for {
+			idx := indexByte(rest, c)
+			if idx < 0 {
+				break
+			}
+			cur = append(cur, mkStr(rest[:idx]))
+			out = append(out, mkConcat(cur...))
+			cur = nil
+			rest = rest[idx+1:]
+		}
+		cur = append(cur, mkStr(rest))
+	}
+	out = append(out, mkConcat(cur...))
+	return out, true
 }
